@@ -316,6 +316,12 @@ def run(ctx):
     ok = [e for e in events if e['mode'] == 'ip' and not e['raised']]
     if ok:
         ctx.sample({'catalogue_event': ok[len(ok) // 2]})
+    # ---- harvest: every Operator.__call__ made inside the repository's own tests (hook ODL_VERIF_TRACE) ----
+    from .. import harvest as H
+    quick = ctx.tier == 'quick'
+    for sig, detail in H.harvest(ctx, {'call'}, H.QUICK_MODULES if quick else H.THOROUGH_MODULES,
+                                 ('in-place-does-not-return-out', 'input-modified', 'result-not-in-range')):
+        ctx.violation(sig, detail)
     ctx.exhaustive = True
 
 
